@@ -1,6 +1,6 @@
 (* C14 - diagnostics point at the offending construct in the user's own file.
    Property theorems only; proofs live in RegionProofs.v. *)
-From HclV Require SpanParserSpec SpanParserProofs.
+From HclV Require SpanParserSpec SpanParserProofs DiagSpec DiagProofs.
 From HclV Require Import Base Yo Region RegionSpec RegionProofs RegionMultiSpec RegionMultiProofs.
 From HclV Require LexLocSpec LexLocProofs.
 Open Scope list_scope.
@@ -170,3 +170,23 @@ Proof.
   exact SpanParserProofs.user_span_rendered_in_user_file_gen_holds.
 Qed.
 Print Assumptions C14_user_spans_rendered_in_the_user_file.
+
+(* ---- which regions a diagnostic shows (Diag.v / DiagSpec.v / DiagProofs.v: the model of
+   Error::format_for_contents) ---------------------------------------------------------------- *)
+(* the rendered text is message lines alternating with the show_region blocks of exactly the
+   spans of the error, in order (for a mux width error: the sized options, stably sorted by
+   width); spans in the user's text on one line each are rendered with the user's file name, the
+   line counted in the user's text, the echoed line and carets under exactly the span; no region
+   of a span at or after the preamble's end is headed <builtin> *)
+Theorem C14_diagnostic_shows_the_regions_of_its_spans :
+  DiagSpec.stmt_render_regions /\ DiagSpec.stmt_error_spans_vs_hook /\ DiagSpec.stmt_mux_spans_sorted /\
+  DiagSpec.stmt_mux_spans_in_order /\ DiagSpec.stmt_render_regions_located /\
+  DiagSpec.stmt_render_regions_never_preamble.
+Proof.
+  split; [exact DiagProofs.render_regions_holds |].
+  split; [exact DiagProofs.error_spans_vs_hook_holds |].
+  split; [exact DiagProofs.mux_spans_sorted_holds |].
+  split; [exact DiagProofs.mux_spans_in_order_holds |].
+  split; [exact DiagProofs.render_regions_located_holds | exact DiagProofs.render_regions_never_preamble_holds].
+Qed.
+Print Assumptions C14_diagnostic_shows_the_regions_of_its_spans.
